@@ -528,69 +528,64 @@ impl Bmi2StringProcessor {
     #[cfg(target_arch = "x86_64")]
     #[target_feature(enable = "bmi1,bmi2")]
     unsafe fn wildcard_match_bmi2_impl(&self, text: &[u8], pattern: &[u8]) -> bool {
-        // Simplified wildcard matching with BMI2 acceleration
-        // Supports * and ? wildcards
-        
-        let mut text_idx = 0;
-        let mut pattern_idx = 0;
+        // Anchored glob matching over the UTF-8 bytes of `text` and `pattern`,
+        // supporting * (any run of characters, including none) and ? (exactly
+        // one character). Must accept exactly what wildcard_match_scalar accepts.
+        //
+        // Iterative two-pointer matching that backtracks to the most recent `*`
+        // only: O(text.len() * pattern.len()) worst case, no recursion. Literals
+        // are compared bytewise, which is equivalent to comparing characters
+        // because both inputs are valid UTF-8; `?` and a growing `*` advance by a
+        // whole character, so text_idx is on a character boundary whenever
+        // pattern_idx is.
 
-        while pattern_idx < pattern.len() && text_idx < text.len() {
-            match pattern[pattern_idx] {
-                b'*' => {
-                    // Skip consecutive asterisks
-                    while pattern_idx < pattern.len() && pattern[pattern_idx] == b'*' {
-                        pattern_idx += 1;
-                    }
-                    
-                    if pattern_idx == pattern.len() {
-                        return true; // Pattern ends with *, matches everything
-                    }
-                    
-                    // Find next matching character using BMI2
-                    let next_char = pattern[pattern_idx];
-                    while text_idx < text.len() {
-                        let current_char = if text_idx + 8 <= text.len() {
-                            let chunk = unsafe { std::ptr::read_unaligned(text.as_ptr().add(text_idx) as *const u64) };
-                            Bmi2BextrOps::extract_bits_bextr(chunk, 0, 8) as u8
-                        } else {
-                            text[text_idx]
-                        };
-                        
-                        if current_char == next_char {
-                            break;
-                        }
-                        text_idx += 1;
-                    }
-                }
-                b'?' => {
-                    // Single character wildcard
-                    text_idx += 1;
-                    pattern_idx += 1;
-                }
-                c => {
-                    // Literal character match
-                    let text_char = if text_idx + 8 <= text.len() {
-                        let chunk = unsafe { std::ptr::read_unaligned(text.as_ptr().add(text_idx) as *const u64) };
-                        Bmi2BextrOps::extract_bits_bextr(chunk, 0, 8) as u8
-                    } else {
-                        text[text_idx]
-                    };
-                    
-                    if text_char != c {
-                        return false;
-                    }
-                    text_idx += 1;
-                    pattern_idx += 1;
-                }
+        // Length in bytes of the UTF-8 character that starts with `lead`
+        #[inline(always)]
+        fn utf8_char_width(lead: u8) -> usize {
+            match lead {
+                0xF0..=0xFF => 4,
+                0xE0..=0xEF => 3,
+                0xC0..=0xDF => 2,
+                _ => 1,
             }
         }
 
-        // Check if we consumed all of pattern
-        while pattern_idx < pattern.len() && pattern[pattern_idx] == b'*' {
-            pattern_idx += 1;
+        let mut text_idx = 0;
+        let mut pattern_idx = 0;
+        // (pattern index just after the most recent `*`, text index up to which
+        // that `*` currently extends)
+        let mut backtrack: Option<(usize, usize)> = None;
+
+        while text_idx < text.len() {
+            let pattern_char = pattern.get(pattern_idx).copied();
+
+            if pattern_char == Some(b'*') {
+                // Try the empty run first, extend it on a later mismatch
+                pattern_idx += 1;
+                backtrack = Some((pattern_idx, text_idx));
+            } else if pattern_char == Some(b'?') {
+                // Single character wildcard
+                text_idx = (text_idx + utf8_char_width(text[text_idx])).min(text.len());
+                pattern_idx += 1;
+            } else if pattern_char == Some(text[text_idx]) {
+                // Literal match
+                text_idx += 1;
+                pattern_idx += 1;
+            } else if let Some((star_pattern_idx, star_text_idx)) = backtrack {
+                // Mismatch (or pattern exhausted with text left over): let the
+                // most recent `*` take one more character and retry after it
+                let resume = (star_text_idx + utf8_char_width(text[star_text_idx])).min(text.len());
+                backtrack = Some((star_pattern_idx, resume));
+                pattern_idx = star_pattern_idx;
+                text_idx = resume;
+            } else {
+                return false;
+            }
         }
 
-        pattern_idx == pattern.len()
+        // Text is consumed: whatever is left of the pattern must match the
+        // empty string, i.e. consist of asterisks only
+        pattern[pattern_idx..].iter().all(|&c| c == b'*')
     }
 
     #[cfg(target_arch = "x86_64")]
